@@ -296,6 +296,9 @@ func (u *Universe) sortOf(t types.Type, key string) *Sort {
 	case *types.Struct:
 		return u.structSort(fmt.Sprintf("S_anon%d", len(u.sorts)), tt)
 	case *types.Slice:
+		if b, ok := tt.Elem().Underlying().(*types.Basic); ok && b.Kind() == types.Uint8 {
+			return u.BzSort()
+		}
 		return u.sliceSort(u.SortOf(tt.Elem()))
 	case *types.Array:
 		return u.sliceSort(u.SortOf(tt.Elem()))
